@@ -71,6 +71,47 @@ def run(op, a):
         tx2.vin[idx2].scriptSig = ssig
         fl = {E.SCRIPT_VERIFY_P2SH}
         r0 = outcome(lambda: E.VerifyScript(ssig, spk, tx, idx, fl))
+        # the same edit applied IN PLACE to the object that was just verified (same identity, new
+        # field values), verified again straight away, must give the same answer as a freshly built
+        # edited transaction
+        ed = tx_from_val(tv2, mutable=True)
+        ed.vin[idx2].scriptSig = ssig
+        tx.nVersion, tx.nLockTime = ed.nVersion, ed.nLockTime
+        tx.vin[:] = ed.vin
+        tx.vout[:] = ed.vout
+        tx.wit = ed.wit
+        r1b = outcome(lambda: E.VerifyScript(ssig, spk, tx, idx2, fl))
         r1 = outcome(lambda: E.VerifyScript(ssig, spk, tx2, idx2, fl))
+        if r1b != r1:
+            r1 = vals.Err(vals.EXN_CODES['OtherErr'])      # neither accept nor a validation error: always a violation
         return [r0, r1, bytes(ssig), bytes(spk), bytes(inner)]
+    if op == 3:
+        secrets, tv, idx, ht, shape = a
+        from bitcoin.core.script import OP_CHECKSIGVERIFY, OP_NOT
+        keys = [CBitcoinSecret.from_secret_bytes(s[:32], bool(s[32] & 1)) for s in secrets]
+        A, B = keys[0].pub, keys[1].pub
+        bad = [b'\x02' + b'\xff' * 32, b'\x05' + bytes(A[1:]), bytes(A[:10]), b'\x04' + bytes(A[1:]) + b'\x00' * 31, b'\x03' + b'\x00' * 32][shape % 5]
+        kind = shape // 5
+        if kind == 0:
+            spk, nsig, who = CScript([A, OP_CHECKSIGVERIFY, bad, OP_CHECKSIG]), 2, [0, 0]
+        elif kind == 1:
+            spk, nsig, who = CScript([bad, OP_CHECKSIG]), 1, [0]
+        elif kind == 2:
+            spk, nsig, who = CScript([2, A, bad, 2, OP_CHECKMULTISIG]), 2, [0, 0]
+        elif kind == 3:
+            spk, nsig, who = CScript([A, OP_CHECKSIGVERIFY, A, OP_CHECKSIG]), 2, [0, 0]
+        elif kind == 4:
+            spk, nsig, who = CScript([A, OP_CHECKSIG, OP_NOT]), 1, [1]
+        elif kind == 5:
+            spk, nsig, who = CScript([1, bad, A, 2, OP_CHECKMULTISIG]), 1, [0]
+        else:
+            spk, nsig, who = CScript([bad, OP_CHECKSIG, OP_NOT, OP_VERIFY if False else 0x69, A, OP_CHECKSIG]), 2, [0, 0]
+        tx = tx_from_val(tv, mutable=True)
+        h = SignatureHash(spk, tx, idx, ht)
+        sigs = [keys[w].sign(h) + bytes([ht]) for w in who]
+        parts = ([OP_0] if kind in (2, 5) else []) + sigs
+        ssig = CScript(parts)
+        tx.vin[idx].scriptSig = ssig
+        r0 = outcome(lambda: E.VerifyScript(ssig, spk, tx, idx, {E.SCRIPT_VERIFY_P2SH}))
+        return [r0, bytes(ssig), bytes(spk)]
     raise ValueError('op')
